@@ -273,6 +273,7 @@ func (g *GcsEmu) handleGcsDelete(ctx context.Context, w http.ResponseWriter, buc
 
 		return nil
 	})
+	verifYield("gcs.unlocked")
 	if err != nil {
 		g.gapiError(w, httpStatusCodeOf(err), err.Error())
 		return
@@ -390,6 +391,7 @@ func (g *GcsEmu) handleGcsUpdateMetadataRequest(ctx context.Context, baseUrl Htt
 
 		return nil
 	})
+	verifYield("gcs.unlocked")
 
 	if err != nil {
 		g.gapiError(w, httpStatusCodeOf(err), err.Error())
@@ -442,6 +444,7 @@ func (g *GcsEmu) handleGcsCopy(ctx context.Context, baseUrl HttpBaseUrl, w http.
 			return err
 		}
 	})
+	verifYield("gcs.unlocked")
 	if err != nil {
 		g.gapiError(w, httpStatusCodeOf(err), fmt.Sprintf("failed to copy: %s", err))
 		return
@@ -682,6 +685,7 @@ func (g *GcsEmu) finishUpload(ctx context.Context, baseUrl HttpBaseUrl, obj *sto
 		}
 		return nil
 	})
+	verifYield("gcs.unlocked")
 
 	if err != nil {
 		return nil, err
